@@ -122,6 +122,7 @@ def candidates(case):
                                  ('ret_awaitable', None),
                                  ('req_shape', None),
                                  ('handler_absorbs', None),
+                                 ('handler_self_cancel', None),
                                  ('forever', False), ('critical', False),
                                  ('outcome', 'ret'), ('cls', 'abstract')):
                 if m.get(key) != neutral:
@@ -147,7 +148,8 @@ def candidates(case):
     # knobs
     for key, neutral in (('stall_den', 0), ('tie_shuffle', False),
                          ('base', 0.0), ('wall_offset', 0), ('entry', 'run'),
-                         ('noise', 0), ('sync_shutdown', False)):
+                         ('noise', 0), ('sync_shutdown', False),
+                         ('wall_jump', None)):
         if case['knobs'].get(key) != neutral:
             new = variant()
             new['knobs'][key] = neutral
